@@ -171,8 +171,11 @@ pub struct EncryptedKeyStorageManager {
     storage_path: PathBuf,
     /// Argon2id configuration
     argon2_config: Argon2Config,
-    /// In-memory cache of decrypted keys
-    key_cache: Arc<RwLock<HashMap<String, SecureMemory>>>,
+    /// In-memory cache of decrypted keys, each entry bound to a tag of the password that
+    /// unlocked it (see `password_tag`); a hit is served only to a caller presenting that password
+    key_cache: Arc<RwLock<HashMap<String, (SecureMemory, [u8; 32])>>>,
+    /// Random per-manager key for `password_tag` (never leaves memory)
+    cache_tag_key: [u8; 32],
     // Removed insecure password cache that bypassed password validation
     /// Background key derivation tasks
     _background_tasks: Arc<AsyncRwLock<HashMap<String, tokio::task::JoinHandle<Result<()>>>>>,
@@ -329,10 +332,14 @@ impl EncryptedKeyStorageManager {
             std::fs::create_dir_all(parent).map_err(P2PError::Io)?;
         }
 
+        let mut cache_tag_key = [0u8; 32];
+        RngCore::fill_bytes(&mut thread_rng(), &mut cache_tag_key);
+
         Ok(Self {
             storage_path,
             argon2_config,
             key_cache: Arc::new(RwLock::new(HashMap::new())),
+            cache_tag_key,
             _background_tasks: Arc::new(AsyncRwLock::new(HashMap::new())),
             stats: Arc::new(Mutex::new(StorageStats::default())),
             _security_level: security_level,
@@ -433,7 +440,10 @@ impl EncryptedKeyStorageManager {
             })?;
             cache.insert(
                 seed_id.to_string(),
-                SecureMemory::from_slice(master_seed.seed_material())?,
+                (
+                    SecureMemory::from_slice(master_seed.seed_material())?,
+                    self.password_tag(password)?,
+                ),
             );
         }
 
@@ -467,7 +477,12 @@ impl EncryptedKeyStorageManager {
                     "read lock failed".to_string().into(),
                 ))
             })?;
-            if let Some(cached_seed) = cache.get(seed_id) {
+            // Serve from the cache only if the presented password is the one that unlocked the
+            // entry; any other password takes the slow path and is checked against the file.
+            let tag = self.password_tag(password)?;
+            if let Some((cached_seed, cached_tag)) = cache.get(seed_id)
+                && bool::from(subtle::ConstantTimeEq::ct_eq(&tag[..], &cached_tag[..]))
+            {
                 let mut stats = self.stats.lock().map_err(|_| {
                     P2PError::Storage(StorageError::LockPoisoned(
                         "mutex lock failed".to_string().into(),
@@ -496,7 +511,13 @@ impl EncryptedKeyStorageManager {
                     "write lock failed".to_string().into(),
                 ))
             })?;
-            cache.insert(seed_id.to_string(), SecureMemory::from_slice(seed_bytes)?);
+            cache.insert(
+                seed_id.to_string(),
+                (
+                    SecureMemory::from_slice(seed_bytes)?,
+                    self.password_tag(password)?,
+                ),
+            );
         }
 
         // Update statistics
@@ -686,6 +707,16 @@ impl EncryptedKeyStorageManager {
         cache.clear();
 
         Ok(())
+    }
+
+    /// Keyed tag of a password, used to bind cache entries to the password that unlocked them
+    fn password_tag(&self, password: &SecureString) -> Result<[u8; 32]> {
+        let password_str = password.as_str().map_err(|e| {
+            P2PError::Security(crate::error::SecurityError::DecryptionFailed(
+                format!("Invalid password encoding: {e}").into(),
+            ))
+        })?;
+        Ok(*blake3::keyed_hash(&self.cache_tag_key, password_str.as_bytes()).as_bytes())
     }
 
     /// Derive key from password using Argon2id
